@@ -1,1 +1,35 @@
-fn main() { println!("vph"); }
+mod export;
+mod lattice;
+mod models;
+mod prob;
+mod report;
+mod sc;
+
+fn arg_after(args: &[String], key: &str) -> Option<String> {
+    args.iter().position(|a| a == key).and_then(|i| args.get(i + 1).cloned())
+}
+
+fn main() {
+    let args: Vec<String> = std::env::args().collect();
+    if args.len() < 2 {
+        eprintln!("usage: vph <subcommand> ...");
+        std::process::exit(2);
+    }
+    // panics inside code under test are data; keep the default hook quiet
+    std::panic::set_hook(Box::new(|_| {}));
+    let rep = match args[1].as_str() {
+        "lattice" => {
+            let path = args.get(2).expect("export file");
+            let opts = lattice::Opts {
+                only_f64: args.iter().any(|a| a == "--only-f64"),
+                replay_flavour: arg_after(&args, "--flavour"),
+            };
+            lattice::run(path, &opts)
+        }
+        other => {
+            eprintln!("unknown subcommand {other}");
+            std::process::exit(2);
+        }
+    };
+    println!("{}", serde_json::to_string(&rep.to_json()).unwrap());
+}
